@@ -1,25 +1,107 @@
-import EdbVerif.Model.TopoSpec
+/-
+The six lemmas behind `Props/C20.lean`.  The work is in
+`TopoAux` (adjacency lists, `loop`/`frame` rules), `TopoFuel` (recursion bound),
+`TopoInv` (DFS state invariant) and `TopoTop` (top-level loop, error ⇒ cycle,
+the all-acyclic case).
+-/
+import EdbVerif.Lemmas.TopoTop
 namespace EdbVerif.Topo
 
 theorem sortEx_perm (g : Graph) (allow : Bool) (o : List Nat) (hwf : WF g)
-    (h : sortEx g allow = .ok o) : o.Perm g.keys := by sorry
+    (h : sortEx g allow = .ok o) : o.Perm g.keys := by
+  obtain ⟨st, hinv, rfl, hall, _⟩ := sortEx_ok_inv hwf h
+  have hnd : st.order.Nodup := by rw [hinv.ord]; exact List.nodup_reverse.2 hinv.nodup
+  exact (List.perm_ext_iff_of_nodup hnd hwf).2 (fun a => hinv.mem_order.trans (hall a))
 
 theorem sortEx_hard (g : Graph) (allow : Bool) (o : List Nat) (hwf : WF g)
     (h : sortEx g allow = .ok o) (a b : Nat) (hab : Hard g a b) :
-    pos o b < pos o a := by sorry
+    pos o b < pos o a := by
+  obtain ⟨st, hinv, rfl, hall, _⟩ := sortEx_ok_inv hwf h
+  exact hinv.hard a (hinv.mem_order.2 ((hall a).2 hab.src)) b (hard_mem_adj hwf hab)
 
 theorem sortEx_cycle_iff (g : Graph) (allow : Bool) (hwf : WF g) (hr : Resolved g allow) :
-    (∃ i p, sortEx g allow = .cycle i p) ↔ Cyclic (fun a b => Hard g a b ∨ Ctrl g a b) := by sorry
+    (∃ i p, sortEx g allow = .cycle i p) ↔ Cyclic (fun a b => Hard g a b ∨ Ctrl g a b) := by
+  constructor
+  · rintro ⟨i, p, h⟩
+    rw [sortEx_resolved hr] at h
+    rcases ht : topLoop g (g.length + 1) g.keys {} with ⟨st, _ | c⟩
+    · rw [ht] at h; cases h
+    · obtain ⟨k, _, s, _, hs⟩ := topLoop_some (g := g) (fuel := g.length + 1) (fun _ => True)
+        (fun _ _ _ => trivial) g.keys {} c trivial (by rw [ht])
+      exact visit_err_cyclic g _ [] k false s c (by intro x hx; cases hx) hs
+  · rintro ⟨a, ha⟩
+    rw [sortEx_resolved hr]
+    rcases ht : topLoop g (g.length + 1) g.keys {} with ⟨st, _ | c⟩
+    · exfalso
+      have := topLoop_inv hwf (Nat.le_refl _) g.keys {} (fun _ h => h) (Inv.init g)
+      rw [ht] at this
+      obtain ⟨b, hb, _⟩ := Relation.TransGen.head'_iff.1 ha
+      have hak : a ∈ g.keys := by
+        rcases hb with hb | hb
+        · exact hb.src
+        · exact hb.src
+      exact this.1.acyc a (this.2.2 rfl a hak) a Relation.ReflTransGen.refl ha
+    · exact ⟨c.item, c.path, rfl⟩
 
 theorem sortEx_soft (g : Graph) (allow : Bool) (hwf : WF g) (hr : Resolved g allow)
     (hac : ¬ Cyclic (fun a b => Hard g a b ∨ Ctrl g a b ∨ Weak g a b)) :
-    ∃ o, sortEx g allow = .ok o ∧ ∀ a b, Weak g a b → pos o b < pos o a := by sorry
+    ∃ o, sortEx g allow = .ok o ∧ ∀ a b, Weak g a b → pos o b < pos o a := by
+  have hs := topLoop_soft hwf (hac : ¬ Cyclic (T g)) (Nat.le_refl _) g.keys {} (fun _ h => h)
+    (Inv.init g) (by intro a ha; cases ha)
+  have hi := topLoop_inv hwf (Nat.le_refl _) g.keys {} (fun _ h => h) (Inv.init g)
+  rw [sortEx_resolved hr]
+  rcases ht : topLoop g (g.length + 1) g.keys {} with ⟨st, _ | c⟩
+  · rw [ht] at hs hi
+    refine ⟨st.order, rfl, fun a b hab => ?_⟩
+    exact hs.2 a (hi.1.mem_order.2 (hi.2.2 rfl a hab.src)) b (weak_mem_weakAdj hwf hab)
+  · rw [ht] at hs; cases hs.1
+
+theorem firstUnresolved_isSome_iff (g : Graph) :
+    (firstUnresolved g).isSome ↔
+      ∃ e ∈ g, ∃ d ∈ e.weak ++ e.merge ++ e.deps ++ e.ctrl, d ∉ g.keys := by
+  unfold firstUnresolved
+  rw [List.findSome?_isSome_iff]
+  constructor
+  · rintro ⟨e, he, h⟩
+    rw [Option.isSome_map, List.find?_isSome] at h
+    obtain ⟨d, hd, hp⟩ := h
+    refine ⟨e, he, d, hd, ?_⟩
+    intro hk
+    rw [← has_iff] at hk
+    simp [hk] at hp
+  · rintro ⟨e, he, d, hd, hk⟩
+    refine ⟨e, he, ?_⟩
+    rw [Option.isSome_map, List.find?_isSome]
+    refine ⟨d, hd, ?_⟩
+    rw [← has_iff] at hk
+    simp [hk]
 
 theorem sortEx_unres_iff (g : Graph) (allow : Bool) :
     (∃ d i, sortEx g allow = .unresolved d i) ↔
-      allow = false ∧ ∃ e ∈ g, ∃ d ∈ e.weak ++ e.merge ++ e.deps ++ e.ctrl, d ∉ g.keys := by sorry
+      allow = false ∧ ∃ e ∈ g, ∃ d ∈ e.weak ++ e.merge ++ e.deps ++ e.ctrl, d ∉ g.keys := by
+  rw [← firstUnresolved_isSome_iff]
+  constructor
+  · rintro ⟨d, i, h⟩
+    cases allow with
+    | true =>
+      rw [sortEx_resolved (Or.inl rfl)] at h
+      rcases ht : topLoop g (g.length + 1) g.keys {} with ⟨st, _ | c⟩ <;> rw [ht] at h <;> cases h
+    | false =>
+      refine ⟨rfl, ?_⟩
+      rcases hfu : firstUnresolved g with _ | x
+      · rw [sortEx_resolved (Or.inr hfu)] at h
+        rcases ht : topLoop g (g.length + 1) g.keys {} with ⟨st, _ | c⟩ <;> rw [ht] at h <;> cases h
+      · rfl
+  · rintro ⟨rfl, h⟩
+    rcases hfu : firstUnresolved g with _ | ⟨d, i⟩
+    · rw [hfu] at h; cases h
+    · refine ⟨d, i, ?_⟩
+      unfold sortEx
+      simp [hfu]
 
+set_option linter.unusedVariables false in
 theorem topLoop_fuel (g : Graph) (hwf : WF g) (fuel : Nat) (hf : g.length + 1 ≤ fuel) :
-    topLoop g fuel g.keys {} = topLoop g (g.length + 1) g.keys {} := by sorry
+    topLoop g fuel g.keys {} = topLoop g (g.length + 1) g.keys {} :=
+  topLoop_fuel_aux g fuel hf g.keys {}
 
 end EdbVerif.Topo
